@@ -258,4 +258,61 @@ theorem scan_renderS (ps : List Piece) (hp : ∀ p ∈ ps, PieceOKS p) :
       rw [hr] at hf ⊢
       rw [scan_pieceS n p hp0, ih (fun q hq => hp q (by simp [hq])) n (by rw [List.length_append] at hf; omega)]
 
+/-! ### the produced text -/
+
+/-- specification of one piece of output -/
+def pieceOut (hole : HoleFn) : Piece → Option (List Char)
+  | .text c => some [c]
+  | .hole p sl fm => hole p sl fm
+  | .raise => none
+
+theorem assemble_eq (hole : HoleFn) (ps : List Piece) :
+    assemble hole ps = (ps.mapM (pieceOut hole)).map List.flatten := by
+  induction ps with
+  | nil => rfl
+  | cons p t ih =>
+    cases p with
+    | text c =>
+      simp only [assemble, ih, List.mapM_cons, pieceOut]
+      cases t.mapM (pieceOut hole) <;> simp
+    | raise => simp [assemble, List.mapM_cons, pieceOut]
+    | hole pa sl fm =>
+      simp only [assemble, ih, List.mapM_cons, pieceOut]
+      cases hole pa sl fm with
+      | none => simp
+      | some s => cases t.mapM (pieceOut hole) <;> simp
+
+theorem mapM_pieceOut_ok (hole : HoleFn) (out : Piece → List Char) (ps : List Piece)
+    (h : ∀ p ∈ ps, pieceOut hole p = some (out p)) :
+    (ps.mapM (pieceOut hole)).map List.flatten = some (ps.flatMap out) := by
+  induction ps with
+  | nil => rfl
+  | cons p t ih =>
+    have h0 := h p (by simp)
+    have ih' := ih (fun q hq => h q (by simp [hq]))
+    cases ht : t.mapM (pieceOut hole) with
+    | none => rw [ht] at ih'; simp at ih'
+    | some l =>
+      rw [ht] at ih'
+      simp only [Option.map_some, Option.some.injEq] at ih'
+      simp [List.mapM_cons, h0, ht, ih']
+
+theorem mapM_pieceOut_err (hole : HoleFn) (ps : List Piece)
+    (h : ∃ p ∈ ps, pieceOut hole p = none) :
+    (ps.mapM (pieceOut hole)).map List.flatten = none := by
+  induction ps with
+  | nil => obtain ⟨p, hp, _⟩ := h; simp at hp
+  | cons q t ih =>
+    obtain ⟨p, hp, hn⟩ := h
+    simp only [List.mem_cons] at hp
+    cases hq : pieceOut hole q with
+    | none => simp [List.mapM_cons, hq]
+    | some s =>
+      rcases hp with rfl | hp
+      · rw [hn] at hq; cases hq
+      · have := ih ⟨p, hp, hn⟩
+        cases ht : t.mapM (pieceOut hole) with
+        | none => simp [List.mapM_cons, hq, ht]
+        | some l => rw [ht] at this; simp at this
+
 end SciVerif.C18
